@@ -101,7 +101,7 @@ var queryPaths = []string{
 	"/saonetwork.sao.node.Query/Pool", "/saonetwork.sao.node.Query/NodeAll", "/saonetwork.sao.node.Query/PledgeAll", "/saonetwork.sao.node.Query/Params",
 	"/saonetwork.sao.order.Query/OrderAll", "/saonetwork.sao.order.Query/ShardAll", "/saonetwork.sao.model.Query/MetadataAll", "/saonetwork.sao.model.Query/ModelAll",
 	"/saonetwork.sao.model.Query/ExpiredDataAll", "/saonetwork.sao.sao.Query/TimeoutOrderAll", "/saonetwork.sao.sao.Query/ExpiredShardAll",
-	"/saonetwork.sao.did.Query/DidAll", "/saonetwork.sao.did.Query/PaymentAddressAll", "/saonetwork.sao.did.Query/AccountListAll", "/saonetwork.sao.market.Query/WorkerAll",
+	"/saonetwork.sao.did.Query/DidAll", "/saonetwork.sao.did.Query/SidDocumentAll", "/saonetwork.sao.did.Query/SidDocumentVersionAll", "/saonetwork.sao.did.Query/KidAll", "/saonetwork.sao.node.Query/PledgeDebtAll", "/saonetwork.sao.did.Query/PaymentAddressAll", "/saonetwork.sao.did.Query/AccountListAll", "/saonetwork.sao.market.Query/WorkerAll",
 	"/cosmos.bank.v1beta1.Query/TotalSupply", "/cosmos.staking.v1beta1.Query/Validators",
 }
 
@@ -162,6 +162,19 @@ func RunChild(o ChildOpts) {
 			txs = append(txs, d.Tx)
 		}
 	}
+	txPos := 0 // number of stream transactions delivered so far
+	pickTx := func() []byte {
+		// mostly the transactions about to be delivered (their sequence numbers are valid now, so a
+		// simulation really executes their messages), sometimes any transaction of the stream
+		if rng.Intn(4) > 0 && txPos < len(txs) {
+			k := txPos + rng.Intn(3)
+			if k >= len(txs) {
+				k = len(txs) - 1
+			}
+			return txs[k]
+		}
+		return txs[rng.Intn(len(txs))]
+	}
 	noise := func(n int) {
 		if rng == nil {
 			return
@@ -171,11 +184,11 @@ func RunChild(o ChildOpts) {
 			switch rng.Intn(4) {
 			case 0:
 				if len(txs) > 0 {
-					c.CheckTx(txs[rng.Intn(len(txs))], rng.Intn(3) == 0)
+					c.CheckTx(pickTx(), rng.Intn(3) == 0)
 				}
 			case 1:
 				if len(txs) > 0 {
-					c.Simulate(txs[rng.Intn(len(txs))])
+					c.Simulate(pickTx())
 				}
 			case 2:
 				c.Query(queryPaths[rng.Intn(len(queryPaths))], nil)
@@ -211,6 +224,11 @@ func RunChild(o ChildOpts) {
 			}(g)
 		}
 	}
+	for i := 0; i < o.Start && i < len(reqs); i++ {
+		if reqs[i].GetDeliverTx() != nil {
+			txPos++
+		}
+	}
 	commits := 0
 	for i := o.Start; i < len(reqs); i++ {
 		r := reqs[i]
@@ -229,9 +247,10 @@ func RunChild(o ChildOpts) {
 			x, halt = c.BeginBlockReq(*v.BeginBlock)
 			resp = abci.ToResponseBeginBlock(x)
 		case *abci.Request_DeliverTx:
-			if rng != nil && rng.Intn(3) == 0 {
-				noise(1)
+			if rng != nil && rng.Intn(2) == 0 {
+				noise(1 + rng.Intn(2))
 			}
+			txPos++
 			var x abci.ResponseDeliverTx
 			x, halt = c.DeliverTx(v.DeliverTx.Tx)
 			resp = abci.ToResponseDeliverTx(x)
